@@ -11,6 +11,7 @@ uint16_t vf_nondet_u16();
 uint8_t vf_nondet_u8();
 uint8_t vf_nondet_bool();
 void vf_set_fatal_assume(unsigned v);
+void vf_hb_register(void* p);
 void vf_hb_write(void* p);
 void vf_hb_read(void* p);
 void vf_yield();
